@@ -50,7 +50,8 @@ P12_Agrees(r) ==
          [] r.k = "deploy" -> r.bcls = "value" => /\ r.data = BuildDeploy(r.code, r.vm, r.meta, r.args)
                                                   /\ SameRes(r.parse, ParseDeploy(r.data))
          [] r.k = "su" -> r.bcls = "value" => /\ r.data = CreateSU(r.us)
-                                              /\ SameRes(r.parse, ParseSU(r.data))
+                                              /\ r.pin \in {r.data, <<AT>> \o r.data}        \* what the parser was given
+                                              /\ SameRes(r.parse, ParseSU(r.pin))
          [] r.k = "msg" -> r.res = "ok" => /\ SameRes(r.parse, ParseCall(r.data))
                                            /\ r.parse.cls = "value" => Agree(r.dst, ParseTransfers(r.snd, r.rcv, r.parse.v.fn, r.parse.v.args))
          [] OTHER -> TRUE
